@@ -47,8 +47,13 @@ def execute(p, chooser):
                 elif k == "poll":
                     def poll_fn(ds):
                         if p.get("again") and not p["wait"] and obs.get("shutdown_started") and not obs.get("again_done"):
-                            det.wait_until(lambda: obs["returned"])
+                            # ONE worker thread does this (with several poll layers every poll thread gets here: claim it before waiting),
+                            # and only once EVERY layer has been shut down: with concurrent shutdown callers the call that returned may
+                            # be a losing one while the winner is still on its way down, and a worker thread that then performs the FIRST
+                            # shutdown(wait=True) of its own executor would join itself (RuntimeError, as in the stdlib pool)
                             obs["again_done"] = True
+                            det.wait_until(lambda: obs["returned"] and all(getattr(getattr(o3, "_shutdown", None), "is_shutdown", True)
+                                                                              for (k3, o3) in objs))
                             obs["in_again"] = det.me().name        # the calls of THIS thread are the repeated ones
                             for (k2, o2) in objs:
                                 try:
